@@ -113,7 +113,7 @@ func UserHomeDir() (string, error) {
 }
 func UserCacheDir() (string, error)  { h, err := UserHomeDir(); return h + "/.cache", err }
 func UserConfigDir() (string, error) { h, err := UserHomeDir(); return h + "/.config", err }
-func Executable() (string, error)    { use("executable"); return "/usr/local/bin/gontainer", nil }
+func Executable() (string, error)    { use("executable"); return os.Executable() }
 
 // ---------------------------------------------------------------------------------------
 // clock (there are no timers in the system; any use at all is a dependence C08 can see)
